@@ -59,7 +59,13 @@ def scenario(sim):
     N = min(400000, (W // 4, W - 1, W, W + 1, 2 * W, 4 * W)[sim.choose(6)])
     n_err = (0, N // 3, N)[sim.choose(3)]
     n_out = N - n_err
-    desc = {"direction": direction, "window": W, "max_packet": P, "N": N, "stderr_part": n_err, "latency": lat, "junk": junk}
+    tail = sim.choose(4) == 0 and W <= 100000
+    if tail:
+        # both streams' writers end up blocked on an exhausted window with only a few bytes left each
+        a, b = 1 + sim.choose(200), 1 + sim.choose(200)
+        n_out, n_err = W // 2 + a, W - W // 2 + b
+        N = n_out + n_err
+    desc = {"direction": direction, "window": W, "max_packet": P, "N": N, "stderr_part": n_err, "latency": lat, "junk": junk, "tail_shape": tail}
     junk_total = 0
     if junk:
         # extended data of types the receiver discards, before and during the transfer
@@ -82,6 +88,9 @@ def scenario(sim):
         n_err_expected_extra = sum(n for c, n in zip(codes, sizes) if c == 1)
     else:
         n_err_expected_extra = 0
+    prefill = (not junk) and sim.choose(5) == 0 and W <= 100000
+    if prefill:
+        return prefill_case(sim, w, src, dst, src_side, dst_side, W, desc)
     out_data = b"o" * n_out
     err_data = b"e" * n_err
     nw = 1 + sim.choose(2)
@@ -89,7 +98,7 @@ def scenario(sim):
     def writer(data, stderr):
         i = 0
         while i < len(data):
-            k = (100, 5000, 40000, 1 << 20)[sim.choose(4)]
+            k = (1 << 20) if tail else (100, 5000, 40000, 1 << 20)[sim.choose(4)]
             piece = data[i:i + k]
             (src.sendall_stderr if stderr else src.sendall)(piece)
             i += len(piece)
@@ -148,3 +157,47 @@ def scenario(sim):
         sim.probe("transfers_needing_adjusts")
     w.p.close()
     return {"sample": desc, "nontrivial": True, "counts": ["W:%d" % W, "junk" if junk else "plain"]}
+
+
+def prefill_case(sim, w, src, dst, src_side, dst_side, W, desc):
+    """The window is filled completely while nobody reads; then 2-3 small writers (stdout and stderr)
+    block on the exhausted window; then the receiver drains the backlog with ONE large recv (a single
+    window adjustment) and keeps reading both streams: every writer must still finish."""
+    desc["shape"] = "prefill-then-small-writers"
+    src.sendall(b"f" * W)
+    small = [(bool(sim.choose(2)), 1 + sim.choose(300)) for _ in range(2 + sim.choose(2))]
+    desc["small_writers"] = small
+    tasks = []
+    for i, (stderr, n) in enumerate(small):
+        tasks.append(w.spawn("w-small%d" % i, (lambda stderr=stderr, n=n: (src.sendall_stderr if stderr else src.sendall)(b"s" * n))))
+    sim.sleep(1.0)       # all of them are now waiting for window
+    if all(t.state != core.DONE for t in tasks):
+        sim.probe("several_senders_blocked_on_zero_window")
+    want_out = W + sum(n for e, n in small if not e)
+    want_err = sum(n for e, n in small if e)
+    got = {"out": 0, "err": 0}
+    dst.settimeout(15.0)
+
+    def reader(stderr, total):
+        key = "err" if stderr else "out"
+        try:
+            while got[key] < total:
+                x = (dst.recv_stderr if stderr else dst.recv)(1 << 20)
+                if not x:
+                    return
+                got[key] += len(x)
+        except socket.timeout:
+            return
+    w.spawn("r-out", lambda: reader(False, want_out))
+    w.spawn("r-err", lambda: reader(True, want_err))
+    stuck = w.wait(60.0)
+    for name, e, when in w.errors:
+        raise Violation(("C20", "transfer-failed", name.split("-")[0], type(e).__name__, "prefill"),
+                        "%s ended with %r although the receiver kept reading (got %r of out=%d err=%d)" % (name, e, got, want_out, want_err), desc)
+    if stuck or got["out"] < want_out or got["err"] < want_err:
+        raise Violation(("C20", "transfer-stalled", "prefill-then-small-writers"),
+                        "receiver kept reading, yet only out %d/%d err %d/%d arrived; still blocked: %s"
+                        % (got["out"], want_out, got["err"], want_err, [t.name + "@" + core.where_parked(t) for t in stuck]), desc)
+    sim.probe("transfers_completed")
+    w.p.close()
+    return {"sample": desc, "nontrivial": True, "counts": ["W:%d" % W, "prefill"]}
